@@ -14,7 +14,11 @@ source on disk is never touched; node positions are kept, so reports still point
      (the set of identifiers occurring as string literals in vt/*.py and vt/props/*.py): functions the rules
      name keep their identity; functions a refactoring introduced are dissolved into their callers;
   3. keyword -> positional arguments for calls whose callee resolves to a function of the analysed tree
-     (``kw_to_pos``, needs the other modules' signatures and is therefore run by the loader after indexing).
+     (``kw_to_pos``, needs the other modules' signatures and is therefore run by the loader after indexing);
+  4. local closures used as plain helpers (``def reg(a, b): ...`` at the top of a function body, only ever called,
+     after its definition, from the function's own scope) are inlined like private helpers (``Inliner._local_helpers``);
+  5. loops over a short literal tuple / list of *variables* (``for src in (self.resources, overrides): d.update(src)``)
+     are unrolled (``Unroll``); loops over constants (slot-name tables) keep their shape.
 
 Anything the inliner cannot restructure soundly (returns inside nested loops, ``finally`` with a pending
 continuation, ...) is left as the call it was: normalisation never guesses.
@@ -309,6 +313,18 @@ def _all_names(node):
         set(a.arg for n in ast.walk(node) if isinstance(n, ast.arguments) for a in n.posonlyargs + n.args + n.kwonlyargs)
 
 
+def _walk_same_scope(node):
+    """Nodes of a statement that execute in the enclosing function's own scope and at the statement's own time."""
+    todo = [node]
+    while todo:
+        n = todo.pop()
+        yield n
+        for c in ast.iter_child_nodes(n):
+            if isinstance(c, (ast.FunctionDef, ast.AsyncFunctionDef, ast.ClassDef, ast.Lambda, ast.GeneratorExp)):
+                continue
+            todo.append(c)
+
+
 class Helper(object):
     def __init__(self, node, kind, cls=None):
         self.node, self.kind, self.cls = node, kind, cls   # kind: 'func' | 'method' | 'static' | 'class'
@@ -388,6 +404,9 @@ class Inliner(object):
         self.mod_helpers, self.cls_helpers = collect_helpers(tree, anchors)
         self.count = 0
         self.log = []
+        self.anchors = anchors
+        self.local_helpers = {}     # closures defined in the function being processed (see _local_helpers)
+        self.shadowed = set()       # names the function being processed binds itself
         # single-inheritance chains inside the module: ``self._helper(..)`` in a subclass method names the helper
         # defined by a base class of the same module (collect_helpers admits a method name only when exactly one
         # class of the module defines it, so no class on the chain overrides it)
@@ -416,12 +435,45 @@ class Inliner(object):
             cur = bases[0].id
         return None
 
+    def _local_helpers(self, fn):
+        """Closures that are plain local helpers: ``def reg(a, b): ...`` at the top level of ``fn``'s body, never re-bound,
+        used only as the callee of calls that follow the definition.  Their free variables are ``fn``'s locals, read at
+        call time -- exactly what the inlined body reads."""
+        out = {}
+        for i, st in enumerate(fn.body):
+            if not isinstance(st, ast.FunctionDef) or st.name in self.anchors or st.decorator_list:
+                continue
+            fake = copy.copy(st)
+            fake.name = '_' + st.name.lstrip('_')
+            if _eligible_def(fake) != 'func':
+                continue
+            if any(isinstance(n, ast.Call) and isinstance(n.func, ast.Name) and n.func.id == st.name for n in ast.walk(st)):
+                continue
+            if any(not isinstance(d, ast.Constant) for d in st.args.defaults + [d for d in st.args.kw_defaults if d is not None]):
+                continue      # a default is evaluated when the closure is defined, not where it is called
+            uses = [n for n in ast.walk(fn) if isinstance(n, ast.Name) and n.id == st.name]
+            callees = set(id(n.func) for n in ast.walk(fn) if isinstance(n, ast.Call) and isinstance(n.func, ast.Name))
+            binds = [n for n in ast.walk(fn) if isinstance(n, (ast.FunctionDef, ast.ClassDef)) and n is not st and n is not fn and n.name == st.name]
+            if binds or not uses or any(not isinstance(u.ctx, ast.Load) or id(u) not in callees for u in uses):
+                continue
+            # the closure must not be called from another nested function / lambda / comprehension (different scope),
+            # nor before its definition
+            later = set(id(n) for s2 in fn.body[i + 1:] for n in _walk_same_scope(s2))
+            if any(id(u) not in later for u in uses):
+                continue
+            # a name the closure binds locally that the enclosing function also uses would need ``nonlocal`` to be shared:
+            # it is not shared, and the inliner renames it
+            out[st.name] = Helper(st, 'func')
+        return out
+
     # -- which helper does this call name? ------------------------------------------------------------
     def _helper_of(self, call, cls_name):
         f = call.func
         if any(isinstance(a, ast.Starred) for a in call.args) or any(k.arg is None for k in call.keywords):
             return None, None
-        if isinstance(f, ast.Name) and f.id in self.mod_helpers:
+        if isinstance(f, ast.Name) and f.id in self.local_helpers:
+            return self.local_helpers[f.id], None
+        if isinstance(f, ast.Name) and f.id in self.mod_helpers and f.id not in self.shadowed:
             return self.mod_helpers[f.id], None
         if isinstance(f, ast.Attribute) and isinstance(f.value, ast.Name):
             recv = f.value.id
@@ -696,14 +748,16 @@ class Inliner(object):
         return out, changed
 
     def run(self):
-        if not self.mod_helpers and not self.cls_helpers:
-            return 0
 
         def do_func(fn, cls_name):
             names = _all_names(fn)
             self._bound = _stored_names(fn.body) | set(a.arg for n in ast.walk(fn) if isinstance(n, ast.arguments)
                                                        for a in n.posonlyargs + n.args + n.kwonlyargs + [x for x in (n.vararg, n.kwarg) if x])
+            self.local_helpers = self._local_helpers(fn)
+            self.shadowed = _stored_names(fn.body) | set(a.arg for a in fn.args.posonlyargs + fn.args.args + fn.args.kwonlyargs) | \
+                set(n.name for n in ast.walk(fn) if isinstance(n, (ast.FunctionDef, ast.ClassDef)) and n is not fn)
             new, ch = self._process_block(fn.body, cls_name, names, [0])
+            self.local_helpers = {}
             if ch:
                 fn.body = new
             for st in fn.body:
@@ -724,6 +778,82 @@ class Inliner(object):
         return self.count
 
 
+# ---------------------------------------------------------------------------------------------- loop unrolling
+class Unroll(ast.NodeTransformer):
+    """``for x in (a, b): body``  ->  ``x = a; body[x := a]; x = b; body[x := b]`` for a loop over a short literal
+    tuple / list of *variables* (names or attribute chains; loops over constants -- slot-name tables -- are kept).
+
+    Exactly the iterations the loop makes, in order.  Attribute elements are evaluated once, up front and in order
+    (as the tuple display does) into temporaries; plain names are read where the copy uses them, which is the same
+    value because the body may not re-bind them.  Not applied when the body breaks / continues, defines functions
+    or re-binds the loop variable or a name an element reads."""
+
+    MAX_ELTS, MAX_BODY = 4, 10
+
+    def __init__(self):
+        self.n = 0
+
+    @staticmethod
+    def _loop_jumps(body):
+        todo = list(body)
+        while todo:
+            n = todo.pop()
+            if isinstance(n, (ast.Break, ast.Continue)):
+                return True
+            if isinstance(n, (ast.For, ast.While, ast.AsyncFor)):
+                todo.extend(n.orelse)      # break/continue in a nested loop's body belong to that loop
+                continue
+            if isinstance(n, ast.stmt) or isinstance(n, ast.ExceptHandler):
+                todo.extend(c for c in ast.iter_child_nodes(n) if isinstance(c, (ast.stmt, ast.ExceptHandler)))
+        return False
+
+    def visit_For(self, node):
+        self.generic_visit(node)
+        it = node.iter
+        if node.orelse or not isinstance(node.target, ast.Name) or not isinstance(it, (ast.Tuple, ast.List)):
+            return node
+        if not (1 <= len(it.elts) <= self.MAX_ELTS) or not all(isinstance(e, (ast.Name, ast.Attribute)) and _simple_arg(e)
+                                                                for e in it.elts):
+            return node
+        x = node.target.id
+        body = node.body
+        if sum(1 for s in body for n in ast.walk(s) if isinstance(n, ast.stmt)) > self.MAX_BODY:
+            return node
+        if self._loop_jumps(body) or _contains(body, (ast.FunctionDef, ast.AsyncFunctionDef, ast.ClassDef, ast.Lambda, ast.Yield,
+                                                        ast.YieldFrom, ast.Await, ast.Global, ast.Nonlocal), stop=()):
+            return node
+        stored = _stored_names(body)
+        for s in body:
+            for n in ast.walk(s):
+                if isinstance(n, ast.comprehension):
+                    stored |= set(t.id for t in ast.walk(n.target) if isinstance(t, ast.Name))
+                if isinstance(n, ast.Call) and isinstance(n.func, ast.Name) and n.func.id in ('locals', 'vars', 'eval', 'exec'):
+                    return node
+        roots = set()
+        for e in it.elts:
+            r = e
+            while isinstance(r, ast.Attribute):
+                r = r.value
+            roots.add(r.id)
+        if x in stored or x in roots or (roots & stored):
+            return node
+        pre, elts = [], []
+        for e in it.elts:
+            if isinstance(e, ast.Attribute):
+                tmp = '_unr%d_%s' % (self.n, e.attr)
+                self.n += 1
+                pre.append(ast.copy_location(ast.Assign(targets=[ast.Name(id=tmp, ctx=ast.Store())], value=e), node))
+                elts.append(ast.copy_location(ast.Name(id=tmp, ctx=ast.Load()), e))
+            else:
+                elts.append(e)
+        out = list(pre)
+        for e in elts:
+            out.append(ast.copy_location(ast.Assign(targets=[ast.Name(id=x, ctx=ast.Store())], value=copy.deepcopy(e)), node))
+            sub = _Subst({x: e}, {})
+            out.extend(sub.visit(copy.deepcopy(s)) for s in body)
+        return out
+
+
 def normalize_tree(tree):
     """Stage 1 (intra-module).  Returns (tree, number of inlined calls)."""
     tree = Canon().visit(tree)
@@ -731,6 +861,7 @@ def normalize_tree(tree):
     n = inl.run()
     if n:
         tree = Canon().visit(tree)
+    tree = Unroll().visit(tree)
     ast.fix_missing_locations(tree)
     return tree, n
 
